@@ -217,11 +217,14 @@ class Ctx:
         if _shard and level in self.STATELESS_LEVELS and len(script) > 400000:
             from concurrent.futures import ThreadPoolExecutor
             n = 14
-            step = (len(script) + n - 1) // n
-            parts = [script[i:i + step] for i in range(0, len(script), step)]
+            # round robin, so that the expensive cases (long expansions) are spread over the shards
+            parts = [script[k::n] for k in range(n)]
             with ThreadPoolExecutor(max_workers=n) as ex:
-                outs = list(ex.map(lambda part: self.run_model(level, part, profile, max(timeout, 1800), _shard=False), parts))
-            return [l for o in outs for l in o]
+                outs = list(ex.map(lambda part: self.run_model(level, part, profile, max(timeout, 2400), _shard=False), parts))
+            merged = [None] * len(script)
+            for k, o in enumerate(outs):
+                merged[k::n] = o
+            return merged
         chunk = "\n".join(script) + "\n"
         if os.environ.get("VERIF_DUMP_MODEL_SCRIPTS"):
             open(os.path.join(ROOT, ".cache", "model_script_%s_%d.txt" % (level, len(script))), "w").write(chunk)
